@@ -95,7 +95,11 @@ func planFor(prop, tier string) plan {
 	case "C07", "C06", "C12":
 		if tier == "quick" {
 			p.variants = []string{"open"}
-			p.steps = 3000
+			p.steps = 4500
+		}
+	case "C03", "C01", "C05", "C11", "C13":
+		if tier == "quick" {
+			p.steps = 3500
 		}
 	}
 	if s := special.Plan(prop, tier); s != nil {
